@@ -39,6 +39,7 @@ def cases(tier):
         c01.vector_case(FORMATS, tier),
         c01.vector_case(FORMATS, tier),
         c01.grid_case(FORMATS, tier),
+        c01.sandwich_case(FORMATS, tier),
     )
 
 
